@@ -647,6 +647,64 @@ def extract_flags():
     for verb in ("pause", "resume", "stop"):
         flags[f"subchannel_{verb}_is_plain_forward"] = _plain_forward(
             vars(_c15_dsub.SubChannel)[f"{verb}Producing"], f"subchannel_{verb}Producing")
+    # C10 (round 5): the retransmit queue and the watermark are touched only where the model touches them.
+    # (a) which Outbound methods mutate / rebind `_outbound_queue` and `_queued_unsent`
+    from wormhole._dilation import outbound as dout_c10
+    from wormhole._dilation import inbound as dinb_c10
+    _MUT = {"append", "appendleft", "extend", "extendleft", "pop", "popleft", "clear", "remove", "insert", "rotate", "reverse"}
+
+    def _touchers(cls, attr):
+        out = set()
+        ctree = ast.parse(textwrap.dedent(inspect.getsource(cls))).body[0]
+        for fn in ctree.body:
+            if not isinstance(fn, ast.FunctionDef):
+                continue
+            for n in ast.walk(fn):
+                def is_attr(x):
+                    return isinstance(x, ast.Attribute) and x.attr == attr and isinstance(x.value, ast.Name) and x.value.id == "self"
+                if isinstance(n, (ast.Assign, ast.AugAssign, ast.AnnAssign, ast.Delete)):
+                    ts = n.targets if isinstance(n, (ast.Assign, ast.Delete)) else [n.target]
+                    for t in ts:
+                        base = t.value if isinstance(t, ast.Subscript) else t
+                        if is_attr(base):
+                            out.add(fn.name)
+                if isinstance(n, ast.Call) and isinstance(n.func, ast.Attribute) and n.func.attr in _MUT and is_attr(n.func.value):
+                    out.add(fn.name)
+        return sorted(out)
+    flags["outbound_queue_touched_only_by_send_and_ack"] = (
+        _touchers(dout_c10.Outbound, "_outbound_queue") == ["__attrs_post_init__", "handle_ack", "queue_and_send_record"])
+    flags["queued_unsent_touched_only_by_known_methods"] = (
+        _touchers(dout_c10.Outbound, "_queued_unsent") == ["__attrs_post_init__", "handle_ack", "queue_and_send_record",
+                                                           "resumeProducing", "stop_using_connection", "use_connection"])
+    # (b) the watermark starts at the integer -1, and is_record_old is exactly `r.seqnum <= self._highest_inbound_acked`
+    init_fn = ast.parse(textwrap.dedent(inspect.getsource(dinb_c10.Inbound.__attrs_post_init__))).body[0]
+    wm_init = [n.value for n in ast.walk(init_fn) if isinstance(n, ast.Assign)
+               and any(isinstance(t, ast.Attribute) and t.attr == "_highest_inbound_acked" for t in n.targets)]
+    flags["inbound_watermark_starts_at_minus_one"] = (len(wm_init) == 1 and ast.unparse(wm_init[0]) == "-1")
+    old_fn = ast.parse(textwrap.dedent(inspect.getsource(dinb_c10.Inbound.is_record_old))).body[0]
+    obody = [st for st in old_fn.body if not (isinstance(st, ast.Expr) and isinstance(st.value, ast.Constant))]
+    cmp_src = "r.seqnum <= self._highest_inbound_acked"
+    plain = False
+    if len(obody) == 1 and isinstance(obody[0], ast.Return) and obody[0].value is not None:
+        plain = ast.unparse(obody[0].value) == cmp_src
+    elif (len(obody) == 2 and isinstance(obody[0], ast.If) and ast.unparse(obody[0].test) == cmp_src
+          and len(obody[0].body) == 1 and isinstance(obody[0].body[0], ast.Return) and ast.unparse(obody[0].body[0].value) == "True"
+          and not obody[0].orelse and isinstance(obody[1], ast.Return) and ast.unparse(obody[1].value) == "False"):
+        plain = True
+    flags["is_record_old_is_plain_le"] = plain
+    # C04: the offer/answer/ack codec (util.dict_to_bytes / bytes_to_dict) must carry str values code point for code
+    # point: no call to to_bytes (which NFC-normalises) or unicodedata in either, and json.dumps with its default
+    # ensure_ascii (no keyword arguments at all)
+    from wormhole import util as _util
+    def _calls(fn):
+        t = ast.parse(textwrap.dedent(inspect.getsource(fn)))
+        return [(_call_name(n), [k.arg for k in n.keywords]) for n in ast.walk(t) if isinstance(n, ast.Call)]
+    enc_calls = _calls(_util.dict_to_bytes)
+    dec_calls = _calls(_util.bytes_to_dict)
+    norm = lambda cs: any(c in ("to_bytes", "to_unicode") or c.startswith("unicodedata") for c, _ in cs)
+    flags["dict_codec_normalises"] = norm(enc_calls) or norm(dec_calls)
+    flags["dict_to_bytes_plain_json_dumps"] = [(c, k) for c, k in enc_calls if c == "json.dumps"] == [("json.dumps", [])]
+    flags["bytes_to_dict_plain_json_loads"] = [(c, k) for c, k in dec_calls if c == "json.loads"] == [("json.loads", [])]
     return flags
 
 
@@ -1097,6 +1155,63 @@ def extract_transit():
     L.append("/-- does `_listener_d` ending by callback / by errback call the port's `stopListening()` ? -/")
     L.append(f"def listener_stop_on_callback : Bool := {'true' if on_cb else 'false'}")
     L.append(f"def listener_stop_on_errback : Bool := {'true' if on_eb else 'false'}")
+    # Common._connect's bookkeeping: is `contenders` a list that only grows by .append(...) (one entry per started
+    # attempt), and can building an endpoint make _connect raise after attempts were started?
+    src = textwrap.dedent(inspect.getsource(tr.Common._connect))
+    tree = ast.parse(src)
+    is_list = False
+    other_writes = 0
+    for n in ast.walk(tree):
+        if isinstance(n, ast.Assign) and any(isinstance(t, ast.Name) and t.id == "contenders" for t in n.targets):
+            is_list = isinstance(n.value, ast.List) and not n.value.elts
+        if isinstance(n, (ast.Assign, ast.AugAssign)):
+            tg = n.targets if isinstance(n, ast.Assign) else [n.target]
+            if any(isinstance(t, ast.Subscript) and ast.unparse(t.value) == "contenders" for t in tg):
+                other_writes += 1
+        if (isinstance(n, ast.Call) and isinstance(n.func, ast.Attribute) and ast.unparse(n.func.value) == "contenders"
+                and n.func.attr not in ("append",)):
+            other_writes += 1
+    appends = sum(1 for n in ast.walk(tree) if isinstance(n, ast.Call) and isinstance(n.func, ast.Attribute)
+                  and ast.unparse(n.func.value) == "contenders" and n.func.attr == "append")
+    contenders_is_list = is_list and other_writes == 0 and appends >= 1
+    # every call of endpoint_from_hint_obj inside a `try:` body?
+    in_try = True
+    ncalls = 0
+
+    def _walk(node, guarded):
+        nonlocal in_try, ncalls
+        if isinstance(node, ast.Call) and _call_name(node).endswith("endpoint_from_hint_obj"):
+            ncalls += 1
+            if not guarded:
+                in_try = False
+        if isinstance(node, ast.Try):
+            for b in node.body:
+                _walk(b, True)
+            for part in (node.handlers, node.orelse, node.finalbody):
+                for b in part:
+                    _walk(b, guarded)
+            return
+        for ch in ast.iter_child_nodes(node):
+            _walk(ch, guarded)
+    _walk(tree, False)
+    in_try = in_try and ncalls > 0
+    # ... or is the function total?  probe the real one with hostnames that have tripped address classifiers
+    from wormhole import _hints as hi
+    from twisted.internet import task as _task
+    total = True
+    for host in ["a\x00b", "\x00", "", "1.2.3.4\x00", "::1\x00", "fe80::1%eth0", "fe80::1%", "\u00e9", "a" * 300, "1.2.3",
+                 "[::1]", "1.2.3.4.5", " 1.2.3.4", "0x7f.1", "\ud800", "%", ":", "a b", "-", "."]:
+        for port in (0, 1, 65535, 70000, -1):
+            try:
+                hi.endpoint_from_hint_obj(hi.DirectTCPV1Hint(host, port, 0.0), None, _task.Clock())
+            except Exception:
+                total = False
+    L.append("/-- `Common._connect`: `contenders` is a list filled by `.append` only — one entry per started attempt -/")
+    L.append(f"def connect_contenders_is_list : Bool := {'true' if contenders_is_list else 'false'}")
+    L.append(f"def connect_endpoint_call_in_try : Bool := {'true' if in_try else 'false'}")
+    L.append(f"def endpoint_from_hint_obj_total : Bool := {'true' if total else 'false'}")
+    L.append("/-- building an endpoint cannot make `_connect` raise between starting attempts and wrapping them -/")
+    L.append(f"def connect_endpoint_errors_contained : Bool := {'true' if (in_try or total) else 'false'}")
     L.append("end WV.Gen.Transit")
     return "\n".join(L) + "\n"
 
